@@ -351,6 +351,9 @@ class MolQueryReader(object):
         if idx1 == idx2:
             raise RINGReaderError('Atom Label ' + tree[0][1]
                                   + ' is bonded to itself')
+        if molquery.mol.GetBondBetweenAtoms(idx1, idx2) is not None:
+            raise RINGReaderError('A bond between ' + tree[0][1] + ' and '
+                                  + tree[2][1] + ' is already declared')
         self.ReadBondTypeBondedAtom(idx1, idx2, bondtype, molquery)
 
     def ReadStereoDoubleBond(self, tree, molquery):
